@@ -28,7 +28,7 @@ type SynOpts struct {
 
 var ntNames = []string{"A", "B", "C", "D", "E", "F", "G", "H", "I", "J", "K", "L", "M", "N", "O", "P"}
 var tokNames = []string{"ta", "tb", "tc", "td", "te", "tf", "tg", "th"}
-var litNames = []string{"+", "*", "(", ")", ",", ";", "x", "if", "=", "é"}
+var litNames = []string{"+", "*", "(", ")", ",", ";", "x", "if", "=", "é", "x=", "==", "xx", "ifx"}
 
 type synB struct {
 	t     *rapid.T
@@ -372,8 +372,8 @@ func SynGrammar(o SynOpts) *rapid.Generator[*gr.Grammar] {
 				for _, p := range b.prods {
 					if p.Name == xName {
 						for _, a := range p.Alts {
-							if !a.Empty && !a.Error && len(a.Syms) > 0 {
-								bodies = append(bodies, a.Syms)
+							if !a.Error && (a.Empty || len(a.Syms) > 0) {
+								bodies = append(bodies, a.Syms) // nil for an empty alternative
 							}
 						}
 					}
@@ -389,7 +389,7 @@ func SynGrammar(o SynOpts) *rapid.Generator[*gr.Grammar] {
 						extra = append(extra, gr.Prod{Name: ntNames[b.nNT], Alts: []gr.Alt_{{Syms: []gr.Sym{b.term()}}}})
 						b.nNT++
 					}
-					z := gr.Prod{Name: zName, Alts: []gr.Alt_{{Syms: append([]gr.Sym{}, body...)}}}
+					z := gr.Prod{Name: zName, Alts: []gr.Alt_{{Syms: append([]gr.Sym{}, body...), Empty: len(body) == 0}}}
 					// the use site gets a sibling alternative with Z in place of X
 					orig := b.prods[u.p].Alts[u.a]
 					cp := gr.Alt_{Syms: append([]gr.Sym{}, orig.Syms...)}
@@ -462,6 +462,10 @@ func AddActions(t *rapid.T, g *gr.Grammar, o SynOpts) {
 			a := &g.Prods[i].Alts[j]
 			n := a.NumBody()
 			tag := fmt.Sprintf("p%d", pn)
+			if rapid.IntRange(0, 7).Draw(t, "percentTag") == 0 {
+				// action text is Go source, not a format string
+				tag += rapid.SampledFrom([]string{"%d", "%", "%%", "%s%v"}).Draw(t, "percent")
+			}
 			style := rapid.IntRange(0, 9).Draw(t, "actStyle")
 			if o.AllRec && style < 2 {
 				style = 5
